@@ -1,6 +1,7 @@
 //! Executes the request protocol of /verif/PROTOCOL.md against the real `rtcp-types` crate.
 
 mod ast;
+mod bufs;
 mod build;
 mod custom;
 mod helper;
@@ -12,6 +13,7 @@ use std::io::{self, BufRead, BufWriter, Write};
 use std::panic::{catch_unwind, AssertUnwindSafe};
 
 use ast::{Kind, Request};
+use bufs::Bufs;
 use render::{hex, Out};
 
 /// PROTOCOL.md §4.2
@@ -29,11 +31,13 @@ fn add_padding(p: &[u8], n: u8) -> Vec<u8> {
     q
 }
 
-fn run_pad(out: &mut Out, kind: Kind, p: &[u8], n: u8) {
+/// `p` is parsed at the start of the long-lived receive buffer, its padded variant `q` at the
+/// start of the second one (PROTOCOL.md §7).
+fn run_pad(out: &mut Out, bufs: &mut Bufs, kind: Kind, p: &[u8], n: u8) {
     let q = add_padding(p, n);
     out.kv("", "padded", &hex(&q));
-    view::dump_kind(out, "a", kind, p);
-    view::dump_kind(out, "b", kind, &q);
+    view::dump_kind(out, "a", kind, bufs.rx.load(p));
+    view::dump_kind(out, "b", kind, bufs.rx2.load(&q));
 }
 
 /// A copy of a byte string whose first byte sits at address `8*m + k` (PROTOCOL.md §4.1,
@@ -86,17 +90,19 @@ fn first_diff_key<'a>(normal: &'a str, other: &'a str) -> &'a str {
     }
 }
 
-/// PROTOCOL.md §4.1: the view dump from an 8-byte aligned start, then the same dump on copies at
-/// addresses `8*m + 1`, `+ 2`, `+ 3`, reported in the one key `shift_same`; the accessors called
-/// again on the same object and last-to-first on a fresh one, reported in `again_same`.
-fn run_parse(out: &mut Out, kind: Kind, bytes: &[u8]) {
-    let aligned = Placed::new(bytes, 0);
-    debug_assert_eq!(aligned.bytes().as_ptr() as usize % 8, 0);
-    // the normal dump, and `again_same` (none for more than 70000 bytes either)
-    let again = view::dump_kind_verdict(out, "", kind, aligned.bytes());
-    if bytes.len() > SHIFT_MAX_LEN {
+/// PROTOCOL.md §4.1: the view dump from an 8-byte aligned start (the start of the long-lived
+/// receive buffer, §7), then the same dump on copies at addresses `8*m + 1`, `+ 2`, `+ 3`,
+/// reported in the one key `shift_same`; the accessors called again on the same object and
+/// last-to-first on a fresh one (parsed from the same slice of the receive buffer), reported in
+/// `again_same`.
+fn run_parse(out: &mut Out, bufs: &mut Bufs, kind: Kind, bytes: &[u8]) {
+    let aligned = bufs.rx.load(bytes);
+    debug_assert_eq!(aligned.as_ptr() as usize % 8, 0);
+    // the normal dump (pass A) and pass B; nothing more for more than 70000 bytes
+    let Some(ab) = view::dump_kind_ab(out, "", kind, aligned) else {
         return;
-    }
+    };
+    debug_assert!(bytes.len() <= SHIFT_MAX_LEN);
     let mut verdict = "true".to_string();
     for k in 1..=3usize {
         let shifted = Placed::new(bytes, k);
@@ -108,14 +114,14 @@ fn run_parse(out: &mut Out, kind: Kind, bytes: &[u8]) {
             break;
         }
     }
+    // pass C last: the last parse of the request reads the receive buffer like the first one
+    let again = view::again_verdict(ab, "", kind, aligned);
     out.kv("", "shift_same", &verdict);
-    if let Some(v) = again {
-        out.kv("", "again_same", &v);
-    }
+    out.kv("", "again_same", &again);
 }
 
 /// The transcript lines of one request (without the `#k` line).
-fn handle(line: &str) -> String {
+fn handle(line: &str, bufs: &mut Bufs) -> String {
     let Some(sexp) = sexp::parse(line) else {
         return "bad-request=syntax\n".to_string();
     };
@@ -126,10 +132,11 @@ fn handle(line: &str) -> String {
     drop(sexp);
     let mut out = Out::new();
     match &req {
-        Request::Parse(kind, bytes) => run_parse(&mut out, *kind, bytes),
-        Request::Pad(kind, bytes, n) => run_pad(&mut out, *kind, bytes, *n),
-        Request::Build(b, bufs) => build::run_build(&mut out, b, bufs),
-        Request::Size(b) => build::run_size(&mut out, b),
+        Request::Parse(kind, bytes) => run_parse(&mut out, bufs, *kind, bytes),
+        Request::Pad(kind, bytes, n) => run_pad(&mut out, bufs, *kind, bytes, *n),
+        Request::Build(b, specs, rt_first) => build::run_build(&mut out, bufs, b, specs, *rt_first),
+        Request::Interleave(a, b) => build::run_interleave(&mut out, bufs, a, b),
+        Request::Size(b) => build::run_size(&mut out, bufs, b),
         Request::Helper(h) => helper::run_helper(&mut out, h),
     }
     out.buf
@@ -141,6 +148,8 @@ fn run() -> io::Result<()> {
     let stdout = io::stdout();
     let mut w = BufWriter::with_capacity(1 << 20, stdout.lock());
 
+    // the receive / output buffers every request reuses (PROTOCOL.md §7)
+    let mut bufs = Bufs::new();
     let mut raw: Vec<u8> = Vec::new();
     let mut k: u64 = 0;
     loop {
@@ -155,7 +164,7 @@ fn run() -> io::Result<()> {
         }
         writeln!(w, "#{k}")?;
         k += 1;
-        match catch_unwind(AssertUnwindSafe(|| handle(line))) {
+        match catch_unwind(AssertUnwindSafe(|| handle(line, &mut bufs))) {
             Ok(s) => w.write_all(s.as_bytes())?,
             Err(_) => w.write_all(b"bad-request=harness-panic\n")?,
         }
